@@ -7,6 +7,8 @@ props = [json.loads(l)["id"] for l in open(os.path.join(V, "properties.jsonl"))]
 
 TECH = "bounded symbolic execution of the real Go SSA of /repo (own executor, fork of go/ssa/interp) with z3 deciding every path's assertions; counterexamples replayed natively"
 claimed = {
+ "C06": ("5/C06", "The real pipeline behind the YAML front end (initCertificate, parseExtensions, commonExtensionHandler via emulated reflection, readRawString with the real base64 code, BuildCertBody, Sign) is executed with raw payload bytes and critical flags symbolic; order, OID, flag and value of every emitted extension are asserted.",
+         "harness starts at the typed v1 structs (no YAML/JSON-schema); ideal signature scheme; fixed clock and serial"),
  "C08": ("5/C08", "Merge is executed symbolically against the merge rule of the statement for every profile/certificate list inside the bound; inputs-unchanged frame check. The failure clause for content-less extensions is decided by the C06/C07 builder harnesses once present.",
          "extension doubles instead of the real v1 types; JSON equality via the json.Marshal model (cross-checked against the host encoder on concrete calls)"),
  "C09": ("5/C09", "Validate is executed symbolically against the three-valued oracle transcribed from the statement; attribute types, optional flags and allowOther are solver variables.",
